@@ -1037,7 +1037,24 @@ fn step_execute(src: &str, ctx_name: &str, timeout_ms: Option<u64>) -> String {
         None => return no_ctx(ctx_name),
     };
     let obs = match timeout_ms {
-        None => exec_obs(src, &mut ctx),
+        None => {
+            // Programs are evaluated from one long-lived, reused line buffer (as a server reading
+            // requests into a single String would do), so consecutive programs occupy the same
+            // address: address-keyed caches in the crate then manifest deterministically.
+            static LINE: Mutex<String> = Mutex::new(String::new());
+            match LINE.try_lock() {
+                Ok(mut line) => {
+                    if line.capacity() < 1 << 16 {
+                        line.reserve(1 << 16);
+                    }
+                    line.clear();
+                    line.push_str(src);
+                    exec_obs(line.as_str(), &mut ctx)
+                }
+                // another thread of a `threads` step is using the buffer (or it is poisoned): evaluate in place
+                Err(_) => exec_obs(src, &mut ctx),
+            }
+        }
         Some(ms) => {
             let (tx, rx) = mpsc::channel::<String>();
             let src2 = src.to_string();
